@@ -122,7 +122,7 @@ def _materialize_template(results_df, template, expression_type, config, positio
                 results_df['reference_results'] = results_df['reference_results'].str.replace(' ', 'T', regex=False)
                 # Make integers not end with .0
             elif datatype == XSD_INTEGER:
-                results_df['reference_results'] = results_df['reference_results'].astype(float).astype(int).astype(str)
+                results_df['reference_results'] = results_df['reference_results'].astype(str).str.replace(r'^([+-]?[0-9]+)\.0\Z', r'\1', regex=True)
 
             # TODO: this can be avoided for most cases (if '\\' in data_value)
             results_df['reference_results'] = results_df['reference_results'].str.replace('\\', '\\\\', regex=False).str.replace('\n', '\\n', regex=False).str.replace('\t', '\\t', regex=False).str.replace('\b', '\\b', regex=False).str.replace('\f', '\\f', regex=False).str.replace('\r', '\\r', regex=False).str.replace('"', '\\"', regex=False).str.replace("'", "\\'", regex=False)
@@ -161,7 +161,7 @@ def _materialize_fnml_execution(results_df, fnml_execution, fnml_df, config, pos
             results_df[fnml_execution] = results_df[fnml_execution].str.replace(' ', 'T', regex=False)
         # Make integers not end with .0
         elif datatype == XSD_INTEGER:
-            results_df[fnml_execution] = results_df[fnml_execution].astype(float).astype(int).astype(str)
+            results_df[fnml_execution] = results_df[fnml_execution].astype(str).str.replace(r'^([+-]?[0-9]+)\.0\Z', r'\1', regex=True)
 
         results_df[fnml_execution] = results_df[fnml_execution].str.replace('\\', '\\\\', regex=False).str.replace('\n', '\\n', regex=False).str.replace('\t', '\\t', regex=False).str.replace('\b', '\\b', regex=False).str.replace('\f', '\\f', regex=False).str.replace('\r', '\\r', regex=False).str.replace('"', '\\"', regex=False).str.replace("'", "\\'", regex=False)
         results_df[position] = '"' + results_df[fnml_execution] + '"'
